@@ -29,28 +29,29 @@ type LoopSpec struct {
 
 // Contract is the specification block of one function (or function literal).
 type Contract struct {
-	Pkg      string // package path
-	Func     string // RelString name, e.g. "(*Condition).Evaluate", "andTerms", "(*Set).Check$1"
-	Params   []string
-	Results  []string
-	Props    []string
-	Uses     []string
-	Requires []*Clause
-	Ensures  []*Clause
-	Loops    []*LoopSpec
-	Modifies []string
-	HasMods  bool
-	NoPanic  bool
-	Checked  bool
-	Trusted  bool
-	Native   bool // native string theory
-	Inline   bool
-	Options  map[string]string
-	GhostEns []*Clause // definitional ensures about ghost state: assumed at call sites, not checked in the unit itself
-	GhostSet []*Clause // "name := expr": ghost assignments performed on return (definitional, applied at call sites)
-	File     string
-	Line     int
-	Bound    bool
+	Pkg       string // package path
+	Func      string // RelString name, e.g. "(*Condition).Evaluate", "andTerms", "(*Set).Check$1"
+	Params    []string
+	Results   []string
+	Props     []string
+	Uses      []string
+	Requires  []*Clause
+	Ensures   []*Clause
+	Loops     []*LoopSpec
+	Modifies  []string
+	HasMods   bool
+	Allocates []string // arrays in which the function only writes objects it allocates itself
+	NoPanic   bool
+	Checked   bool
+	Trusted   bool
+	Native    bool // native string theory
+	Inline    bool
+	Options   map[string]string
+	GhostEns  []*Clause // definitional ensures about ghost state: assumed at call sites, not checked in the unit itself
+	GhostSet  []*Clause // "name := expr": ghost assignments performed on return (definitional, applied at call sites)
+	File      string
+	Line      int
+	Bound     bool
 }
 
 func (c *Contract) Key() string { return c.Pkg + "." + c.Func }
@@ -86,7 +87,7 @@ type Specs struct {
 var funcHdrRe = regexp.MustCompile(`^func\s+(.+?)\s*\(([^()]*)\)\s*(?:\(([^()]*)\))?\s*$`)
 var labelRe = regexp.MustCompile(`^([A-Za-z_][A-Za-z0-9_]*)\s*:([^:].*)$`)
 
-var clauseKeywords = map[string]bool{"func": true, "property": true, "uses": true, "requires": true, "ensures": true, "modifies": true, "nopanic": true, "checked": true, "trusted": true, "abstract": true, "ghostset": true, "ghostensures": true, "strings": true, "loop": true, "invariant": true, "inline": true, "option": true, "assume": true,
+var clauseKeywords = map[string]bool{"func": true, "property": true, "uses": true, "requires": true, "ensures": true, "modifies": true, "allocates": true, "nopanic": true, "checked": true, "trusted": true, "abstract": true, "ghostset": true, "ghostensures": true, "strings": true, "loop": true, "invariant": true, "inline": true, "option": true, "assume": true,
 	"module": true, "package": true, "pure": true, "ghost": true, "define": true, "axiom": true, "lemma": true, "const": true, "import": true}
 
 func splitList(s string) []string {
@@ -252,6 +253,9 @@ func (s *Specs) loadContractFile(path, pkgPath string) error {
 					cur.Modifies = append(cur.Modifies, splitList(rest)...)
 				}
 			}
+		case "allocates":
+			cur.HasMods = true
+			cur.Allocates = append(cur.Allocates, splitList(rest)...)
 		case "ghostset":
 			i := strings.Index(rest, ":=")
 			if i < 0 {
